@@ -143,6 +143,7 @@ func runC09on(c *Check, w *World) {
 
 	ctSites := 0
 	hmacSources := 0
+	siteFns := map[*ssa.Function]bool{}
 	for _, f := range fns {
 		fname := FuncName(f)
 		EachInstr(f, func(in ssa.Instruction) {
@@ -233,6 +234,7 @@ func runC09on(c *Check, w *World) {
 				case constantTimeComparators[name]:
 					if bArg >= 0 {
 						ctSites++
+						siteFns[f] = true
 						c.OK("S3", fname, construct, "HMAC-derived value meets caller data inside a constant-time comparator", w.InstrPos(in))
 					} else {
 						c.OK("S3", fname, construct, "constant-time comparator on HMAC-derived values", w.InstrPos(in))
@@ -263,6 +265,35 @@ func runC09on(c *Check, w *World) {
 				}
 			}
 		})
+	}
+	// S5: the comparison path is memoryless. Implicit flows are not tracked, so a verdict or code remembered
+	// across calls (which is known to equal the expected code once a comparison succeeded) would be
+	// consulted by ordinary comparisons without the explicit-flow rules seeing an H label on it.
+	var roots []*ssa.Function
+	for _, f := range fns {
+		if p := fnPkgPath(f); p != OtpPath && p != WasmPath {
+			continue
+		}
+		for g := range w.Reachable(f) {
+			if siteFns[g] {
+				roots = append(roots, f)
+				break
+			}
+		}
+	}
+	if len(roots) > 0 {
+		var scope []*ssa.Function
+		for g := range w.Reachable(roots...) {
+			if p := fnPkgPath(g); g.Blocks != nil && (p == OtpPath || p == WasmPath) {
+				scope = append(scope, g)
+			}
+		}
+		sortFuncs(scope)
+		tb := NewTB(w)
+		ef := NewEffects(tb)
+		ruleNoPkgState(c, w, tb, ef, "S5", scope)
+		ruleNoConcurrencyPrimitives(c, w, "S5", scope)
+		c.Count("memoryless_scope_functions", len(scope))
 	}
 	if ctSites == 0 {
 		c.Unk("S3", "-", "no-constant-time-site", "no constant-time comparator receives both the HMAC-derived code and caller data in this configuration: sources or entry labels were not found", "")
@@ -330,9 +361,9 @@ func init() {
 			"Sources H: every hash.Hash Sum / digest result. Caller data B: every parameter of every exported otp function and of every module function without module callers (JS-registered functions, framework-called closures), and the request readers of fasthttp. " +
 			"Memory: inclusion-based field-insensitive points-to over allocation sites, globals and call results; module calls bind arguments, results per index and closure captures through the VTA call graph; calls out of the module use 'result depends on all arguments, reference arguments of non-read-only callees may be written with all arguments'. " +
 			"Obligations: every comparison (== != < <= > >=, hence string equality and switch) with an H operand, every map lookup with an H key, every external call receiving H. Discharged when the other operand is a constant or carries no caller data, or the callee is crypto/subtle.ConstantTimeCompare / hmac.Equal / ConstantTimeEq or a formatting/output sink; violated for ordinary comparisons and known early-exit comparators; undecided for unknown callees. " +
-			"Floor: in each configuration at least one constant-time comparator must receive H and caller data. Over-approximate (flow- and context-insensitive), so absence of a report means no explicit flow exists.",
+			"S5: every function of otp/wasm on a path to a constant-time comparison site writes no package-level variable and uses no lock/atomic/goroutine (a remembered verdict or accepted code equals the expected code and would be compared by ordinary means). Floor: in each configuration at least one constant-time comparator must receive H and caller data. Over-approximate (flow- and context-insensitive), so absence of a report means no explicit flow exists.",
 		trusted:  []string{"crypto/subtle.ConstantTimeCompare, crypto/hmac.Equal are constant-time", "stdlib summaries: result depends on all arguments", "no reflection in the three packages"},
-		assume:   []string{"micro-architectural timing (table index by HMAC nibble, division latency) is outside the statement", "implicit flows are not tracked: the branches on labelled data are themselves the sinks"},
+		assume:   []string{"micro-architectural timing (table index by HMAC nibble, division latency) is outside the statement", "implicit flows are not tracked: the branches on labelled data are themselves the sinks; S5 closes the one implicit channel that survives a call (state remembered between calls on the comparison path)"},
 		quick:    []Config{CfgNative, CfgWasm},
 		thorough: []Config{CfgNative, CfgWasm, Cfg386},
 		run:      runC09,
